@@ -30,6 +30,9 @@ type c08Chain struct {
 	// named pipe whose reader starts SlowOutMS late (the decoding side of the command runs ahead of its output)
 	Extra     int `json:",omitempty"`
 	SlowOutMS int `json:",omitempty"`
+	// Patterns: the files are named like run[1].csv — names a shell would treat as patterns — and siblings that such a
+	// pattern matches (run1.csv, another run's results) sit next to them. The command gets the name, not a pattern.
+	Patterns bool `json:",omitempty"`
 }
 
 func runC08Chain(c c08Chain) error {
@@ -41,7 +44,19 @@ func runC08Chain(c c08Chain) error {
 	for i := 0; i < c.Extra; i++ {
 		c.Results = append(c.Results, vegeta.Result{Attack: "extra", Seq: uint64(i), Code: uint16(200 + i%5), Timestamp: time.Unix(1600000000, int64(i)).UTC(), Latency: time.Duration(i), Method: "GET", URL: "http://x.test/", BytesIn: uint64(i)})
 	}
-	cur, err := writeResults(dir, "step0."+c.Start, c.Start, c.Results)
+	stepName := func(i int, format string) string { return fmt.Sprintf("step%d.%s", i, format) }
+	if c.Patterns {
+		stepName = func(i int, format string) string { return fmt.Sprintf("step[%d]?.%s", i, format) }
+		other := []vegeta.Result{{Attack: "another run", Seq: 7, Code: 503, Timestamp: time.Unix(1500000000, 0).UTC(), Latency: 5, Method: "PUT", URL: "http://other.test/", Error: "503 Service Unavailable"}}
+		for i, f := range append([]string{c.Start}, c.Chain...) {
+			for _, n := range []string{fmt.Sprintf("step%dx.%s", i, f), fmt.Sprintf("step%d1.%s", i, f)} {
+				if _, err := writeResults(dir, n, f, other); err != nil {
+					return err
+				}
+			}
+		}
+	}
+	cur, err := writeResults(dir, stepName(0, c.Start), c.Start, c.Results)
 	if err != nil {
 		return err
 	}
@@ -73,7 +88,7 @@ func runC08Chain(c c08Chain) error {
 	}
 	last := c.Start
 	for i, to := range c.Chain {
-		next := filepath.Join(dir, fmt.Sprintf("step%d.%s", i+1, to))
+		next := filepath.Join(dir, stepName(i+1, to))
 		if i < len(c.Existing) && c.Existing[i] > 0 {
 			// an earlier, longer run left a file at this path (a valid stream of the same format followed by more records)
 			stale, _, _ := vgen.EncodeAll(vgen.CodecByName(to), append(append([]vegeta.Result(nil), c.Results...), c.Results...))
@@ -108,7 +123,18 @@ func runC08Chain(c c08Chain) error {
 			return fmt.Errorf("encode step %d (%s -> %s) panics: %v", i+1, last, to, perr)
 		}
 		if piped != nil {
-			b := <-piped
+			// a command that failed before opening its output leaves the reader waiting for a writer: be that writer
+			var b []byte
+			for done := false; !done; {
+				select {
+				case b = <-piped:
+					done = true
+				case <-time.After(20 * time.Millisecond):
+					if w, err := os.OpenFile(filepath.Join(dir, "out.pipe"), os.O_WRONLY|syscall.O_NONBLOCK, 0); err == nil {
+						w.Close()
+					}
+				}
+			}
 			next = filepath.Join(dir, "out.fromthepipe")
 			if err := os.WriteFile(next, b, 0o644); err != nil {
 				return err
@@ -137,6 +163,7 @@ func TestC08EncodeChain(t *testing.T) {
 		c.Results = vgen.Results(t, "rs", 1, 16, vgen.ResultOpts{AllowLargeBody: rapid.IntRange(0, 4).Draw(t, "big") == 0})
 		c.Chain = rapid.SliceOfN(rapid.SampledFrom(formats), 1, 4).Draw(t, "chain")
 		c.FIFO = rapid.IntRange(0, 4).Draw(t, "fifo") == 0
+		c.Patterns = rapid.IntRange(0, 3).Draw(t, "patterns") == 0
 		if rapid.IntRange(0, 5).Draw(t, "slowout") == 0 {
 			c.Extra, c.SlowOutMS = rapid.IntRange(1100, 5000).Draw(t, "extra"), rapid.SampledFrom([]int{50, 200}).Draw(t, "slowoutms")
 		} else if rapid.IntRange(0, 2).Draw(t, "reuse") == 0 {
